@@ -197,7 +197,8 @@ pub struct SelfDial {
     pub in_mesh: bool,
     /// address dialled: 0 forwarded address F (unknown to the node), 1 advertised address, 2 own socket address
     pub dialled: u8,
-    /// source address under which the datagrams come back: 0 = F, 1 = a foreign address G, 2 = own socket address, 3 = advertised
+    /// source address under which the datagrams come back: 0 = F, 1 = a foreign address G, 2 = own socket address,
+    /// 3 = advertised, 4 = a second forwarded address that is dialled too (crossed loop of two own handshakes)
     pub comes_back_from: u8,
     /// replies sent to the come-back address are looped as well (full hair-pin) or dropped
     pub loop_replies: bool,
@@ -235,24 +236,32 @@ pub fn selfdial_case(ctx: &Ctx, c: &SelfDial) -> Vec<Viol> {
         1 => adv,
         _ => own,
     };
-    let back = match c.comes_back_from % 4 {
+    let f2: SocketAddr = "[fd00::f2]:5002".parse().unwrap();
+    let crossed = c.comes_back_from % 5 == 4;
+    let back = match c.comes_back_from % 5 {
         0 => f,
         1 => g,
         2 => own,
-        _ => adv,
+        3 => adv,
+        // a second forwarded address that the node dials as well: what it sends to the first comes back from the
+        // second and vice versa (two of its own handshakes meet each other)
+        _ => f2,
     };
     let loop_replies = c.loop_replies;
     // hair-pin: what node 0 sends to `dialled` arrives at node 0 from `back` (and optionally vice versa)
     sim.rewrite = Some(Box::new(move |src, dst| {
         if src == own && dst == dialled {
             (back, own)
-        } else if loop_replies && src == own && dst == back && back != own {
+        } else if (loop_replies || crossed) && src == own && dst == back && back != own {
             (dialled, own)
         } else {
             (src, dst)
         }
     }));
     sim.connect(0, dialled);
+    if crossed {
+        sim.connect(0, f2);
+    }
     sim.settle();
     let mut dialled_after_adoption = false;
     sim.record = true;
@@ -422,7 +431,7 @@ pub fn run(ctx: &Ctx) {
     let mut sd = vec![];
     for in_mesh in [false, true] {
         for dialled in 0..3u8 {
-            for back in 0..4u8 {
+            for back in 0..5u8 {
                 for loop_replies in [false, true] {
                     sd.push(SelfDial { in_mesh, dialled, comes_back_from: back, loop_replies, seconds: 130 });
                 }
@@ -434,7 +443,7 @@ pub fn run(ctx: &Ctx) {
         let v = selfdial_case(ctx, c);
         ctx.report(v);
     });
-    ctx.subspace("self dial: {alone, in mesh} x dialled {forwarded, advertised, own} x comes back from {forwarded, foreign, own, advertised} x replies looped or not", nsd, true);
+    ctx.subspace("self dial: {alone, in mesh} x dialled {forwarded, advertised, own} x comes back from {forwarded, foreign, own, advertised, second dialled address (crossed)} x replies looped or not", nsd, true);
     ctx.sample("self-dial", || serde_json::to_value(&sd[3]).unwrap());
     for s in [0u16, 150, 450] {
         let v = adoption_case(ctx, s);
